@@ -183,6 +183,12 @@ func (e *panicEngine) sinks() []sink {
 					out = append(out, sink{ins, v.Y, "shift", []string{"ge0"}, "signed shift count must be non-negative"})
 				}
 			case *ssa.TypeAssert:
+				// x.(T) with T the static type of x is go/ssa's nil check for a
+				// method value taken from an interface (y.Index): it cannot
+				// fail on the dynamic type
+				if types.Identical(v.X.Type(), v.AssertedType) {
+					return
+				}
 				if !v.CommaOk && tainted(v.X) {
 					out = append(out, sink{ins, v.X, "assert " + shortType(v.AssertedType), []string{"never"}, "a non-comma-ok type assertion on a script-controlled value panics when the dynamic type differs"})
 				}
